@@ -218,6 +218,11 @@ def cfg(tier, seed):
         for j, types in enumerate(tys):
             out.append(dict(d=2, N=3, F=1, K=K, types=types, box=j % 3, qvec=q2 if j == 0 else q2b))
     out.append(dict(d=2, N=3, F=2, K=2, types=[2, 1, 1], box=2, qvec=q2))
+    # more than one frame for every species count (per-frame state must be reset between frames)
+    out.append(dict(d=2, N=3, F=2, K=1, types=[1, 1, 1], box=1, qvec=q2[:3]))
+    out.append(dict(d=2, N=3, F=2, K=3, types=[3, 1, 2], box=0, qvec=q2b[:3]))
+    out.append(dict(d=2, N=5, F=2, K=4, types=[1, 2, 3, 4, 2], box=1, qvec=q2[:2]))
+    out.append(dict(d=2, N=6, F=2, K=5, types=[5, 4, 3, 2, 1, 3], box=2, qvec=q2b[:2]))
     out.append(dict(d=3, N=3, F=1, K=2, types=[1, 2, 2], box=1, qvec=q3))
     out.append(dict(d=3, N=2, F=1, K=1, types=[1, 1], box=0, qvec=q3))
     for K in (4, 5, 6):
